@@ -552,12 +552,12 @@ def posWF (p : Pos) : Bool :=
   p.inRange && (p.isValid || decide (p = Pos.zero) || decide (p = Pos.recovered))
 
 mutual
-  /-- `JsonWF`: `v` has static type `τ` in `σ`, positions are valid, zero or recovered, there is no
+  /-- `JsonWF` with the condition on positions as a parameter: `v` has static type `τ` in `σ`, positions are valid, zero or recovered, there is no
       slice element that encodes to nothing, strings survive
       `encoding/json` (valid UTF-8), unsigned values fit, operator values are ones that
       `UnmarshalText` maps back from their `String()`. -/
-  def wf (σ : Schema) : GoType → Val → Bool
-    | .pos, .pos p => posWF p
+  def wfWith (pok : Pos → Bool) (σ : Schema) : GoType → Val → Bool
+    | .pos, .pos p => pok p
     | .bool, .bool _ => true
     | .str, .str s => decide (sanitize s = s)
     | .uint b o, .uint b' o' n =>
@@ -567,24 +567,58 @@ mutual
          | some t => decide (n = 0) || decide (σ.unm t (σ.tokStr n) = some n))
     | .ptr _, .nil => true
     | .ptr t, .ptr (.struct name _ fs) =>
-      decide (name = t) && namesOK ((σ.fieldsOf t).map (·.1)) && wfFields σ (σ.fieldsOf t) fs
+      decide (name = t) && namesOK ((σ.fieldsOf t).map (·.1)) && wfFieldsWith pok σ (σ.fieldsOf t) fs
     | .iface _, .inil => true
     | .iface i, .iface (.ptr (.struct name _ fs)) =>
       σ.nodeNames.contains name && σ.implements i name && decide (name ≠ "") &&
         decide (nameOfBytes (bytesOfName name) = name) &&
-        namesOK ((σ.fieldsOf name).map (·.1)) && wfFields σ (σ.fieldsOf name) fs
+        namesOK ((σ.fieldsOf name).map (·.1)) && wfFieldsWith pok σ (σ.fieldsOf name) fs
     | .slice _, .snil => true
-    | .slice ε, .slice elems => wfElems σ ε elems
+    | .slice ε, .slice elems => wfElemsWith pok σ ε elems
     | .struct name ftys, .struct name' _ fs =>
-      decide (name = name') && namesOK (ftys.map (·.1)) && wfFields σ ftys fs
+      decide (name = name') && namesOK (ftys.map (·.1)) && wfFieldsWith pok σ ftys fs
     | _, _ => false
-  def wfFields (σ : Schema) : List (String × GoType) → List (String × Val) → Bool
+  def wfFieldsWith (pok : Pos → Bool) (σ : Schema) : List (String × GoType) → List (String × Val) → Bool
     | [], [] => true
-    | (k, τ) :: ts, (k', v) :: vs => decide (k = k') && wf σ τ v && wfFields σ ts vs
+    | (k, τ) :: ts, (k', v) :: vs => decide (k = k') && wfWith pok σ τ v && wfFieldsWith pok σ ts vs
     | _, _ => false
-  def wfElems (σ : Schema) (ε : GoType) : List Val → Bool
+  def wfElemsWith (pok : Pos → Bool) (σ : Schema) (ε : GoType) : List Val → Bool
     | [] => true
-    | v :: vs => wf σ ε v && !isNoValue v && !isPosVal v && wfElems σ ε vs
+    | v :: vs => wfWith pok σ ε v && !isNoValue v && !isPosVal v && wfElemsWith pok σ ε vs
+end
+
+/-- `JsonWF`: positions are valid, zero or recovered -/
+abbrev wf (σ : Schema) : GoType → Val → Bool := wfWith posWF σ
+abbrev wfFields (σ : Schema) : List (String × GoType) → List (String × Val) → Bool := wfFieldsWith posWF σ
+abbrev wfElems (σ : Schema) (ε : GoType) : List Val → Bool := wfElemsWith posWF σ ε
+
+/-- the same without the condition on positions (any two `uint32`s) -/
+abbrev wfAnyPos (σ : Schema) : GoType → Val → Bool := wfWith Pos.inRange σ
+
+mutual
+  /-- structural equality (the types have no derived `DecidableEq`) -/
+  def beqVal : Val → Val → Bool
+    | .pos p, .pos q => decide (p = q)
+    | .bool a, .bool b => a == b
+    | .str a, .str b => decide (a = b)
+    | .uint b o n, .uint b' o' n' => decide (b = b') && decide (o = o') && decide (n = n')
+    | .nil, .nil => true
+    | .ptr a, .ptr b => beqVal a b
+    | .inil, .inil => true
+    | .iface a, .iface b => beqVal a b
+    | .snil, .snil => true
+    | .slice as, .slice bs => beqValL as bs
+    | .struct n pe fs, .struct n' pe' fs' => decide (n = n') && decide (pe = pe') && beqValF fs fs'
+    | .other, .other => true
+    | _, _ => false
+  def beqValL : List Val → List Val → Bool
+    | [], [] => true
+    | a :: as, b :: bs => beqVal a b && beqValL as bs
+    | _, _ => false
+  def beqValF : List (String × Val) → List (String × Val) → Bool
+    | [], [] => true
+    | (k, a) :: as, (k', b) :: bs => decide (k = k') && beqVal a b && beqValF as bs
+    | _, _ => false
 end
 
 /-! ### re-annotation: `Pos()`/`End()` are functions of the node -/
